@@ -45,16 +45,18 @@ type bounds struct {
 	tailFormNodes   int // bound of the family over the extended tail-call forms
 	callAgainBase   int // base-tree size of the call-again family
 	shapeAllUpTo    int // trees up to this size run every body shape; the next size one shape per tree
+	mixedAllUpTo    int // programs with up to this many modules run every factory / no-factory assignment per module
 }
 
 func tierBounds(thorough bool) bounds {
-	b := bounds{maxNodes: 4, rotUpTo: 3, histories: []string{"once", "twice", "cache", "reopen", "other", "closedcm", "closedmid", "hostclose", "rtinst"}, fullHistoryUpTo: 3, tailFormNodes: 3, shapeAllUpTo: 2, callAgainBase: 3,
+	b := bounds{maxNodes: 4, rotUpTo: 3, histories: []string{"once", "twice", "cache", "reopen", "other", "closedcm", "closedmid", "hostclose", "rtinst"}, fullHistoryUpTo: 3, tailFormNodes: 3, shapeAllUpTo: 2, callAgainBase: 3, mixedAllUpTo: 4,
 		chainPattern: []string{"d", "i", "dim", "dhr"}}
 	for d := 1; d <= 40; d++ {
 		b.chainDepths = append(b.chainDepths, d)
 	}
 	if thorough {
 		b.maxNodes, b.rotUpTo, b.fullHistoryUpTo, b.tailFormNodes, b.shapeAllUpTo, b.callAgainBase = 5, 4, 4, 4, 3, 4
+		b.mixedAllUpTo = 6
 	}
 	return b
 }
@@ -130,7 +132,9 @@ type caseID struct {
 	Listen  bool      `json:"listen"`
 	Mask    uint64    `json:"mask"`
 	All     bool      `json:"all"`
-	Wide    *wideCase `json:"wide,omitempty"` // wide-module family (wide.go)
+	Wide    *wideCase `json:"wide,omitempty"`  // wide-module family (wide.go)
+	NoFac   uint64    `json:"nofac,omitempty"` // modules compiled without any factory (bit 0 env, bit l+1 m<l>)
+	Decoy   bool      `json:"decoy,omitempty"` // instantiate/call context carries a factory no compilation saw
 }
 
 type violOut struct {
@@ -160,7 +164,7 @@ type caseVerdict struct {
 
 // evalCase runs one case and judges everything that can be judged from it alone.
 func evalCase(p *program, id caseID, base *outcome) caseVerdict {
-	spec := runSpec{Engine: id.Engine, History: id.History, Listen: id.Listen, Mask: id.Mask, All: id.All, Comp: id.Comp}
+	spec := runSpec{Engine: id.Engine, History: id.History, Listen: id.Listen, Mask: id.Mask, All: id.All, Comp: id.Comp, NoFac: id.NoFac, Decoy: id.Decoy}
 	v := caseVerdict{res: runCase(p, spec)}
 	_, mout := runModel(p.tree, p.sigs, func(int) bool { return false }, modelOpts{})
 	if !id.Listen {
@@ -183,7 +187,7 @@ func evalCase(p *program, id caseID, base *outcome) caseVerdict {
 		v.viols = append(v.viols, viol{"listener-fault:" + id.Engine + ":" + strings.ReplaceAll(cls, " ", "-"), f})
 		break
 	}
-	set := spec.set()
+	set := effectiveSet(p.tree, spec.set(), id.NoFac)
 	ev := v.res.Ev
 	if id.History != "once" {
 		want, _ := runModel(p.tree, p.sigs, set, modelOpts{})
@@ -252,8 +256,101 @@ func evalCase(p *program, id caseID, base *outcome) caseVerdict {
 			}
 		}
 	}
+	if id.NoFac != 0 {
+		// model mismatches in a mixed configuration (some modules compiled without a factory) are their own class
+		for i := range vs {
+			if genericFamilies[sigFamily(vs[i].Sig)] {
+				vs[i].Sig = "mixed-factory:" + vs[i].Sig
+				vs[i].What = fmt.Sprintf("modules compiled without any listener factory: %s; %s", strings.Join(noFacNames(id.NoFac), ","), vs[i].What)
+			}
+		}
+	}
 	v.viols = append(v.viols, vs...)
 	return v
+}
+
+func noFacNames(nofac uint64) []string {
+	var o []string
+	for k := 0; k < 64; k++ {
+		if nofac>>uint(k)&1 == 1 {
+			o = append(o, modName(k))
+		}
+	}
+	return o
+}
+
+// presentModules: bit positions (exec.go modIdx) of the modules the program consists of.
+func presentModules(t Tree) []int {
+	seen := map[int]bool{}
+	lvl := t.levels()
+	for i := range t {
+		if !t.isCallAgain(i) {
+			seen[modIdx(t, lvl, i)] = true
+		}
+	}
+	var o []int
+	for k := 0; k <= len(t)+1; k++ {
+		if seen[k] {
+			o = append(o, k)
+		}
+	}
+	return o
+}
+
+// noFacMasks: the per-module factory-presence dimension. With at most maxAll modules: every
+// assignment factory / no factory per module except "all with" (the plain families) and "all
+// without" (the no-listener baseline). Programs with more modules (chains over many instances):
+// the entry module alone without; everything but the entry module without; modules at even / odd
+// positions of the import chain without; the host module alone without; all guest modules without.
+func noFacMasks(t Tree, maxAll int) []uint64 {
+	mods := presentModules(t)
+	if len(mods) < 2 {
+		return nil
+	}
+	var full uint64
+	for _, k := range mods {
+		full |= 1 << uint(k)
+	}
+	var out []uint64
+	add := func(m uint64) {
+		m &= full
+		if m == 0 || m == full {
+			return
+		}
+		for _, x := range out {
+			if x == m {
+				return
+			}
+		}
+		out = append(out, m)
+	}
+	if len(mods) <= maxAll {
+		for sub := uint64(1); sub < 1<<uint(len(mods)); sub++ {
+			var m uint64
+			for j, k := range mods {
+				if sub>>uint(j)&1 == 1 {
+					m |= 1 << uint(k)
+				}
+			}
+			add(m)
+		}
+		return out
+	}
+	var even, odd uint64
+	for j, k := range mods {
+		if j%2 == 0 {
+			even |= 1 << uint(k)
+		} else {
+			odd |= 1 << uint(k)
+		}
+	}
+	add(2)         // m0, the module entered from Go
+	add(full &^ 2) // everything the entry module imports from, directly or not
+	add(even)
+	add(odd)
+	add(1)         // env
+	add(full &^ 1) // all guest modules
+	return out
 }
 
 func onlyK(ev []event, k byte) []event {
@@ -375,10 +472,17 @@ func runUnit(u unit, b bounds) (res unitResult) {
 		p := buildProgram(t, start, u.Rot, u.Shape)
 		sets := setsFor(u, len(t))
 		type key struct {
-			mask uint64
-			all  bool
+			mask  uint64
+			all   bool
+			nofac uint64
+			decoy bool
 		}
+		var keys []key // in the order of the first engine's runs
 		streams := map[string]map[key]caseVerdict{}
+		mixedMasks := noFacMasks(t, b.mixedAllUpTo)
+		if u.Shape > 0 || againTree {
+			mixedMasks = nil
+		}
 		for _, eng := range []string{"interpreter", "compiler"} {
 			streams[eng] = map[key]caseVerdict{}
 			bid := caseID{Tree: u.Tree, Rot: u.Rot, Shape: u.Shape, Start: start, Engine: eng, History: "once"}
@@ -438,7 +542,10 @@ func runUnit(u unit, b bounds) (res unitResult) {
 						}
 					}
 					if h == "once" {
-						streams[eng][key{s.Mask, s.All}] = v
+						if eng == "interpreter" {
+							keys = append(keys, key{mask: s.Mask, all: s.All})
+						}
+						streams[eng][key{mask: s.Mask, all: s.All}] = v
 						res.Outcomes[fmt.Sprintf("events:%s", bucket(len(v.res.Ev)))]++
 						if countK(v.res.Ev, 'X') > 0 {
 							res.Outcomes["streams-with-abort"]++
@@ -451,27 +558,64 @@ func runUnit(u unit, b bounds) (res unitResult) {
 						return
 					}
 				}
+				// mixed configurations: per module, compiled with the factory or without any factory
+				fullSet := !s.All && s.Mask == 1<<uint(len(t))-1
+				if (u.Fam == "chain" && !s.All) || (u.Fam == "tree" && len(t) > b.fullHistoryUpTo && !s.All && !fullSet) {
+					continue
+				}
+				for _, nf := range mixedMasks {
+					type variant struct {
+						h     string
+						decoy bool
+					}
+					vars := []variant{{"once", false}}
+					if s.All {
+						vars = append(vars, variant{"once", true})
+					}
+					// the other way of handing the factory to a compilation: Runtime.InstantiateWithConfig /
+					// HostModuleBuilder.Instantiate with the factory in their context
+					if (u.Fam == "tree" && len(t) <= b.fullHistoryUpTo && (s.All || fullSet)) || (u.Fam == "chain" && len(t)%8 == 0) {
+						vars = append(vars, variant{"rtinst", false})
+					}
+					for _, va := range vars {
+						id := caseID{Tree: u.Tree, Rot: u.Rot, Start: start, Engine: eng, History: va.h, Listen: true, Mask: s.Mask, All: s.All, NoFac: nf, Decoy: va.decoy}
+						v := evalCase(p, id, &base)
+						res.Evals++
+						res.Outcomes["mixed-factory-runs"]++
+						if countK(v.res.Ev, 'X') > 0 {
+							res.Outcomes["mixed-factory-streams-with-abort"]++
+						}
+						for _, w := range v.viols {
+							addViol(id, p, w)
+						}
+						if va.h == "once" {
+							k := key{s.Mask, s.All, nf, va.decoy}
+							if eng == "interpreter" {
+								keys = append(keys, k)
+							}
+							streams[eng][k] = v
+						}
+					}
+				}
 			}
 		}
 		// the two engines against each other (only streams that satisfied the statement: a stream
 		// already reported against the model is not reported a second time)
-		for _, s := range sets {
-			k := key{s.Mask, s.All}
+		for _, k := range keys {
 			a, c := streams["interpreter"][k], streams["compiler"][k]
-			want, _ := runModel(t, p.sigs, runSpec{Mask: s.Mask, All: s.All}.set(), modelOpts{})
-			if len(want) > 0 {
+			want, _ := runModel(t, p.sigs, effectiveSet(t, runSpec{Mask: k.mask, All: k.all}.set(), k.nofac), modelOpts{})
+			if len(want) > 0 && !k.decoy {
 				res.Distinct++
 			}
 			if !a.clean || !c.clean {
 				continue
 			}
 			sa, sc := normalizeForEngines(t, a.res.Ev), normalizeForEngines(t, c.res.Ev)
+			id := caseID{Tree: u.Tree, Rot: u.Rot, Shape: u.Shape, Start: start, Engine: "both", History: "once", Listen: true, Mask: k.mask, All: k.all, NoFac: k.nofac, Decoy: k.decoy}
 			if sa != sc {
-				id := caseID{Tree: u.Tree, Rot: u.Rot, Shape: u.Shape, Start: start, Engine: "both", History: "once", Listen: true, Mask: s.Mask, All: s.All}
 				addViol(id, p, viol{"engines-differ:event-stream", fmt.Sprintf("interpreter %s | compiler %s", clip(sa), clip(sc))})
 			}
 			if a.res.Out.String() != c.res.Out.String() {
-				id := caseID{Tree: u.Tree, Rot: u.Rot, Shape: u.Shape, Start: start, Engine: "both", History: "once", Listen: true, Mask: s.Mask, All: s.All}
 				addViol(id, p, viol{"engines-differ:result", fmt.Sprintf("interpreter %v | compiler %v", a.res.Out, c.res.Out)})
 			}
 		}
@@ -630,9 +774,10 @@ func main() {
 	sort.Strings(keys)
 	run.Finish(fw.Coverage{
 		Evaluations: evals, DistinctNontriv: distinct,
-		Rule:    "evaluation = one execution of a generated program on one engine under one compilation history with one listener set (or none); distinct non-trivial = distinct (tree, signature rotation, start-variant, listener set) whose reference event stream is non-empty, counted once across engines and histories",
+		Rule:    "evaluation = one execution of a generated program on one engine under one compilation history with one listener set (or none); distinct non-trivial = distinct (tree, signature rotation, start-variant, listener set) whose reference event stream is non-empty, counted once across engines and histories; mixed configurations count as (tree, rotation, start-variant, listener set, modules without factory) with a non-empty reference stream",
 		Samples: samples.List(), Exhaustive: true, Outcomes: outcomes.Map(),
-		Bounds: map[string]any{"max_nodes": b.maxNodes, "edge_kinds": "d,i,m,h,t,r", "wide_modules": "66, 70 (0 and 2 imports), 130 (0 and 1 import) local functions; run calls the locals at 0,1,31,32,62,63,64,65,66,127,128,129 that exist; (S1,S2) = same set (control), differing in exactly one of those indexes (both directions), in two indexes 64 apart, and high-only sets; histories twice and cache; both engines", "factory_compositions": fmt.Sprintf("single; Multi(set,set); Multi(every function,set); Multi(set,nil,set); Multi(FunctionListenerFunc adapter,set) - on the call-again family (base trees with <= %d nodes + a second call site of an earlier function; sets: all-functions, full, the twice-called function) and on the chains whose length is a multiple of 4 (all-functions factory); history once", b.callAgainBase), "body_shapes": fmt.Sprintf("%d (exit form x surplus operands) combinations x 4 signature rotations on every tree with <= %d nodes, one combination per tree with %d nodes; history once", numShapeCombos, b.shapeAllUpTo, b.shapeAllUpTo+1), "tail_form_family": fmt.Sprintf("edge kinds d,i,m,h,t,u,v,w,r; trees with <= %d nodes using u, v or w", b.tailFormNodes), "outcomes": "R,T,P,E,S", "signature_rotations_up_to_nodes": b.rotUpTo,
+		Bounds: map[string]any{"max_nodes": b.maxNodes, "edge_kinds": "d,i,m,h,t,r", "wide_modules": "66, 70 (0 and 2 imports), 130 (0 and 1 import) local functions; run calls the locals at 0,1,31,32,62,63,64,65,66,127,128,129 that exist; (S1,S2) = same set (control), differing in exactly one of those indexes (both directions), in two indexes 64 apart, and high-only sets; histories twice and cache; both engines", "factory_compositions": fmt.Sprintf("single; Multi(set,set); Multi(every function,set); Multi(set,nil,set); Multi(FunctionListenerFunc adapter,set) - on the call-again family (base trees with <= %d nodes + a second call site of an earlier function; sets: all-functions, full, the twice-called function) and on the chains whose length is a multiple of 4 (all-functions factory); history once", b.callAgainBase), "body_shapes": fmt.Sprintf("%d (exit form x surplus operands) combinations x 4 signature rotations on every tree with <= %d nodes, one combination per tree with %d nodes; history once", numShapeCombos, b.shapeAllUpTo, b.shapeAllUpTo+1), "tail_form_family": fmt.Sprintf("edge kinds d,i,m,h,t,u,v,w,r; trees with <= %d nodes using u, v or w", b.tailFormNodes), "mixed_factories": fmt.Sprintf("per module (env, m0, m1, ...) compiled with its own factory object or with a context without any factory: every assignment except all-with / all-without for programs with <= %d modules, else {entry module, all but the entry module, even, odd positions of the import chain, env, all guest modules} without; on every plain and tail-form tree (all listener sets up to %d nodes, above: all-functions factory and full set) and every chain (all-functions factory); history once, plus once with a decoy factory in the instantiate/call context (all-functions factory), plus rtinst (trees up to %d nodes with the all-functions factory / full set, chains of length 8k)", b.mixedAllUpTo, b.fullHistoryUpTo, b.fullHistoryUpTo),
+			"outcomes": "R,T,P,E,S", "signature_rotations_up_to_nodes": b.rotUpTo,
 			"chain_depths": "1..40", "chain_patterns": b.chainPattern, "chain_leaves": "R,T,P,E", "histories": b.histories, "all_listener_sets_under_every_history_up_to_nodes": b.fullHistoryUpTo, "engines": []string{"interpreter", "compiler"},
 			"listener_sets": "every subset of the nodes + all-functions factory (trees); full/even/odd/root/leaf/all-functions (chains)"},
 		Extra: map[string]any{"units": len(units), "units_done": int64(done) - skipped, "tree_units": nTree, "chain_units": nChain, "wide_module_units": nWide, "units_by_size": byN, "explore_wall_s": time.Since(t0).Seconds(), "unrepeatable_mismatches": unrepeatable},
@@ -641,6 +786,7 @@ func main() {
 		"values are compared after masking to the value type's width (upper bits of 32-bit slots are not part of the value)",
 		"the module/context/error arguments of listener methods are outside the statement and not compared",
 		"a tail call may be notified as a nested call or as return-then-call; any other shape is a violation",
+		"a module compiled with a context that carries no listener factory has no listened functions; a factory that is only in the context of InstantiateModule / Call (never of a compilation) is never notified",
 		"one function per call site: recursion and repeated calls of the same function are not enumerated",
 	})
 }
@@ -663,7 +809,7 @@ func sigFamily(sig string) string {
 // engine comparisons: their remaining segments depend on which event happened to differ, so an
 // address- or timing-dependent defect may show under another signature of the same family.
 var genericFamilies = map[string]bool{"stack": true, "values": true, "sequence": true, "slice-length": true,
-	"listener-fault": true, "results": true, "engines-differ": true, "multi-factory(1)": true, "multi-factory(2)": true, "multi-factory(3)": true, "multi-factory(4)": true}
+	"listener-fault": true, "results": true, "engines-differ": true, "multi-factory(1)": true, "multi-factory(2)": true, "multi-factory(3)": true, "multi-factory(4)": true, "mixed-factory": true}
 
 // confirmIntermittent decides about verdicts that showed once in a child and did not repeat when
 // the case was evaluated again in the same process (runs 1 and 2). The unit is run 4 more times,
@@ -782,7 +928,7 @@ func runOne(id caseID, verbose bool) []viol {
 			c.Engine, c.History = eng, h
 			base := runCase(p, runSpec{Engine: eng, History: "once"}).Out
 			v := evalCase(p, c, &base)
-			want, mout := runModel(t, p.sigs, runSpec{Mask: c.Mask, All: c.All, Listen: c.Listen}.set(), modelOpts{})
+			want, mout := runModel(t, p.sigs, effectiveSet(t, runSpec{Mask: c.Mask, All: c.All, Listen: c.Listen}.set(), c.NoFac), modelOpts{})
 			if !c.Listen {
 				want = nil
 			}
@@ -832,6 +978,10 @@ func show(args []string) {
 		switch {
 		case a == "start":
 			id.Start = true
+		case a == "decoy":
+			id.Decoy = true
+		case strings.HasPrefix(a, "nofac="):
+			fmt.Sscan(a[6:], &id.NoFac)
 		case strings.HasPrefix(a, "comp="):
 			fmt.Sscan(a[5:], &id.Comp)
 		case strings.HasPrefix(a, "shape="):
